@@ -127,7 +127,29 @@ def hostile_strings(g, rng):
     if isinstance(g, G.WeierG):
         p = g.p
         C = g.C
-        m = rng.randrange(8)
+        m = rng.randrange(10)
+        if m >= 8:
+            # a coordinate field that is out of range, chosen so that the point would be valid if the field were silently
+            # replaced by 0 (what a failed field decoding leaves behind) or reduced modulo p
+            top = 1 << 256
+            y0 = C.sqrt(C.b % p)
+            how = rng.randrange(4)
+            if how <= 1 and y0 is not None:
+                xf = rng.choice([p, p + 1, top - 1, rng.randrange(p, top)])
+                y = rng.choice([y0, p - y0])
+                if how == 0:
+                    return b"\x04" + xf.to_bytes(32, "big") + y.to_bytes(32, "big"), "field>=p-valid-if-zeroed"
+                return bytes([2 + (y & 1)]) + xf.to_bytes(32, "big"), "field>=p-valid-if-zeroed"
+            for _ in range(64):
+                x0 = rng.randrange(top - p)
+                P0 = C.lift_x(x0, rng.randrange(2))
+                if P0 is not None:
+                    break
+            else:
+                return bytes(65), "all-zero-fixed-length"
+            if how == 2:
+                return b"\x04" + (x0 + p).to_bytes(32, "big") + P0[1].to_bytes(32, "big"), "field>=p-valid-if-reduced"
+            return bytes([2 + (P0[1] & 1)]) + (x0 + p).to_bytes(32, "big"), "field>=p-valid-if-reduced"
         if m == 0:
             return bytes([rng.choice([0, 0, 1, 2, 3, 4, 5, 6, 7, 0xff])]), "one-byte"
         if m == 1:
@@ -380,7 +402,7 @@ def main(argv):
         for c in curves:
             req += [c + ":decode:accept", c + ":decode:reject", c + ":reps", c + ":batch"]
         req += ["decode:x=0-with-sign-bit", "decode:y>=p", "decode:unused-bits-set", "decode:negated-s", "decode:negated-u", "decode:hybrid-06-07",
-                "decode:all-zero-fixed-length", "weier:0x00-infinity-accepted", "decode:field-top-bit-set", "decode:length+-1", "ristretto255:map",
+                "decode:all-zero-fixed-length", "decode:field>=p-valid-if-zeroed", "decode:field>=p-valid-if-reduced", "weier:0x00-infinity-accepted", "decode:field-top-bit-set", "decode:length+-1", "ristretto255:map",
                 "decaf448:map", "jq255e:map", "jq255s:map", "gls254:map", "map:hashed", "map:directed-halves", "jq255e:map_to_curve", "jq255s:map_to_curve", "gls254:map_to_curve"] + [c + ":keyobj" for c in KEYOBJ]
         rep.require(*req)
     except Inconclusive as e:
